@@ -12,7 +12,9 @@ use proptest::strategy::ValueTree;
 use serde::{Deserialize, Serialize};
 use std::path::{Path, PathBuf};
 
-pub const CORPUS: &str = "/verif/corpus";
+pub fn corpus() -> String {
+    format!("{}/corpus", crate::engine::verif_dir())
+}
 
 #[derive(Serialize, Deserialize, Clone, Debug)]
 pub enum Case {
@@ -132,7 +134,7 @@ pub fn gen_corpus(outdir: &Path, count: usize, produced_by: &str) -> i32 {
 }
 
 fn corpus_names() -> Vec<String> {
-    let mut v: Vec<String> = std::fs::read_dir(CORPUS)
+    let mut v: Vec<String> = std::fs::read_dir(corpus())
         .map(|d| d.filter_map(|e| e.ok()).filter(|e| e.path().join("expected.json").is_file()).map(|e| e.file_name().to_string_lossy().to_string()).collect())
         .unwrap_or_default();
     v.sort();
@@ -284,7 +286,7 @@ impl Property for C14 {
             }
             Case::Corpus(name) => {
                 info.class("corpus");
-                let src = PathBuf::from(CORPUS).join(name);
+                let src = PathBuf::from(corpus()).join(name);
                 let exp: Expected = match std::fs::read(src.join("expected.json")).ok().and_then(|b| serde_json::from_slice(&b).ok()) {
                     Some(e) => e,
                     None => fail!("corpus-unreadable", "cannot load {name}/expected.json"),
